@@ -56,6 +56,11 @@ def classify(i, comps, ci, cm, ev):
                     tags.add("pending")
             if [e[0] for e in ci["log"]] != [e[0] for e in cm["log"]]:
                 tags.add("commits")
+            elif [e for e in ci["log"] if e[0] != "F"] != [e for e in cm["log"] if e[0] != "F"]:
+                # the same commits, another committed snapshot at one of them
+                tags.add("commits")
+                tags.add("usage" if any(a != b for a, b in zip(ci["log"], cm["log"]) if a[0] == "U") else
+                         ("chan:sweep" if base in ("sweep", "advance") else "chan:cmd"))
         elif k == "boot":
             tags.add("commits")
             tags.add("chan:boot")
